@@ -13,7 +13,9 @@ package main
 // with one exception, marked REPLICA below: main()'s expiry statement cannot be executed without
 // running main(), so it is replicated verbatim in verifRaceExpiryReplicaOfMain.
 //
-// phase "serve":   POST session / POST message (two posters per session: ThrottleUntil,
+// phase "serve":   an OPERed session GLINEs users with known remote addresses (cmdGline modifies
+//                  Config.Banned in place) while GET /config and the status pages render the config;
+//                  POST session / POST message (two posters per session: ThrottleUntil,
 //                  LastPostMessage, raft Apply -> FSM.Apply -> ProcessMessage -> outputstream.Add),
 //                  long-poll GetMessages (GetNext, cancellation), status pages, GET/POST config,
 //                  /metrics (the gauge closures of robustirc.go), expiry sweep, raft snapshots
@@ -174,6 +176,16 @@ func (c *verifRaceClient) createSession() (verifRaceSession, bool) {
 	return verifRaceSession{r.Sessionid, r.Sessionauth}, true
 }
 
+// postFrom posts a line through the trusted bridge, so that the message carries |addr| as the
+// client's remote address (X-Forwarded-For is honoured for configured X-Bridge-Auth values)
+func (c *verifRaceClient) postFrom(s verifRaceSession, addr, line string, cmid uint64) int {
+	body, _ := json.Marshal(map[string]interface{}{"Data": line, "ClientMessageId": cmid})
+	code, _ := c.do("POST", c.pub+"/robustirc/v1/"+s.id+"/message", map[string]string{"X-Session-Auth": s.auth, "Content-Type": "application/json",
+		"X-Bridge-Auth": "secret", "X-Forwarded-For": addr}, body, nil)
+	c.cnt.inc("POST message")
+	return code
+}
+
 func (c *verifRaceClient) post(s verifRaceSession, line string, cmid uint64) int {
 	body, _ := json.Marshal(map[string]interface{}{"Data": line, "ClientMessageId": cmid})
 	code, _ := c.do("POST", c.pub+"/robustirc/v1/"+s.id+"/message", map[string]string{"X-Session-Auth": s.auth, "Content-Type": "application/json"}, body, nil)
@@ -267,7 +279,7 @@ func TestVerifRaceSystem(t *testing.T) {
 		if code != 200 {
 			return false
 		}
-		toml := "SessionExpiration = \"400ms\"\nPostMessageCooloff = \"4ms\"\nMaxSessions = 200\n[TrustedBridges]\n\"secret\" = \"bridge\"\n"
+		toml := "SessionExpiration = \"400ms\"\nPostMessageCooloff = \"4ms\"\nMaxSessions = 200\n[TrustedBridges]\n\"secret\" = \"bridge\"\n[[IRC.Operators]]\nName = \"verifop\"\nPassword = \"verifpw\"\n"
 		code, _ = cl.private("POST", "/config", map[string]string{"X-RobustIRC-Config-Revision": strconv.Itoa(rev)}, []byte(toml))
 		cnt.inc("POST config")
 		return code == 200
@@ -433,6 +445,51 @@ func TestVerifRaceSystem(t *testing.T) {
 		cnt.inc("expiry sweep (replica of main)")
 		time.Sleep(15 * time.Millisecond)
 	})
+	// an IRC operator GLINEs users whose remote address is known: cmdGline is the only code that
+	// modifies IRCServer.Config in place (Config.Banned[addr] = reason, under ConfigMu.Lock on the FSM
+	// goroutine) instead of replacing it
+	var opS verifRaceSession
+	var victimSeq uint64
+	spawn(53, func(rng *rand.Rand) {
+		if opS.id == "" {
+			s, ok := cl.createSession()
+			if !ok {
+				time.Sleep(5 * time.Millisecond)
+				return
+			}
+			cl.postFrom(s, "10.9.9.9", "NICK verifoper", uint64(rng.Int63()))
+			cl.postFrom(s, "10.9.9.9", "USER o 0 * :operator", uint64(rng.Int63()))
+			cl.postFrom(s, "10.9.9.9", "OPER verifop verifpw", uint64(rng.Int63()))
+			opS = s
+			cnt.inc("OPER")
+		}
+		victimSeq++
+		v, ok := cl.createSession()
+		if !ok {
+			time.Sleep(5 * time.Millisecond)
+			return
+		}
+		addr := fmt.Sprintf("10.%d.%d.%d", victimSeq>>16&255, victimSeq>>8&255, victimSeq&255)
+		nick := fmt.Sprintf("victim%d", victimSeq)
+		cl.postFrom(v, addr, "NICK "+nick, uint64(rng.Int63()))
+		cl.postFrom(v, addr, "USER v 0 * :victim", uint64(rng.Int63()))
+		if code := cl.postFrom(opS, "10.9.9.9", "GLINE "+nick+" :verif gline", uint64(rng.Int63())); code == 404 {
+			opS = verifRaceSession{} // the operator's session expired or did not survive a restore
+			return
+		}
+		cnt.inc("GLINE (cmdGline: Config.Banned modified in place)")
+	})
+	// config readers: robustirc-editconfig / monitoring fetching the configuration
+	for p := 0; p < 2; p++ {
+		spawn(int64(54+p), func(rng *rand.Rand) {
+			cl.private("GET", "/config", nil, nil)
+			cnt.inc("GET /config")
+			if rng.Intn(4) == 0 {
+				cl.private("GET", "/status", nil, nil)
+				cnt.inc("GET /status")
+			}
+		})
+	}
 	// config changes
 	spawn(52, func(rng *rand.Rand) {
 		code, _ := cl.private("GET", "/config", nil, nil)
